@@ -20,7 +20,7 @@ mod testlib;
 /// Add-only, no behaviour.
 #[cfg(emmyluals_emmylua_analyzer_rust_verif)]
 pub mod verif {
-    pub use crate::util::{BacktrackPoint, desc_to_lines, sort_result};
+    pub use crate::util::{BacktrackPoint, desc_to_lines, is_blank, is_ws, sort_result};
 }
 
 #[derive(Debug, Clone, Eq, PartialEq)]
